@@ -89,8 +89,15 @@ func (c *Commitment) Bytes() []byte {
 		return nil
 	}
 
-	c1Bytes := sliceutils.Map(c.C1, func(c1 *paillier.Ciphertext) []byte { return c1.Bytes() })
-	c2Bytes := sliceutils.Map(c.C2, func(c2 *paillier.Ciphertext) []byte { return c2.Bytes() })
+	// a nil element (CBOR null) contributes no bytes here and is rejected by Verify
+	ctBytes := func(ct *paillier.Ciphertext) []byte {
+		if ct == nil {
+			return nil
+		}
+		return ct.Bytes()
+	}
+	c1Bytes := sliceutils.Map(c.C1, ctBytes)
+	c2Bytes := sliceutils.Map(c.C2, ctBytes)
 
 	out := []byte{}
 	out = sliceutils.AppendLengthPrefixedSlices(out, c1Bytes...)
@@ -127,32 +134,32 @@ func (r *Response) Bytes() []byte {
 	out = binary.LittleEndian.AppendUint64(out, uint64(len(r.W1)))
 	for _, k := range slices.Sorted(maps.Keys(r.W1)) {
 		out = binary.LittleEndian.AppendUint64(out, uint64(k))
-		out = sliceutils.AppendLengthPrefixed(out, r.W1[k].Bytes())
+		out = sliceutils.AppendLengthPrefixed(out, plaintextBytes(r.W1[k]))
 	}
 	out = binary.LittleEndian.AppendUint64(out, uint64(len(r.R1)))
 	for _, k := range slices.Sorted(maps.Keys(r.R1)) {
 		out = binary.LittleEndian.AppendUint64(out, uint64(k))
-		out = sliceutils.AppendLengthPrefixed(out, r.R1[k].Bytes())
+		out = sliceutils.AppendLengthPrefixed(out, nonceBytes(r.R1[k]))
 	}
 	out = binary.LittleEndian.AppendUint64(out, uint64(len(r.W2)))
 	for _, k := range slices.Sorted(maps.Keys(r.W2)) {
 		out = binary.LittleEndian.AppendUint64(out, uint64(k))
-		out = sliceutils.AppendLengthPrefixed(out, r.W2[k].Bytes())
+		out = sliceutils.AppendLengthPrefixed(out, plaintextBytes(r.W2[k]))
 	}
 	out = binary.LittleEndian.AppendUint64(out, uint64(len(r.R2)))
 	for _, k := range slices.Sorted(maps.Keys(r.R2)) {
 		out = binary.LittleEndian.AppendUint64(out, uint64(k))
-		out = sliceutils.AppendLengthPrefixed(out, r.R2[k].Bytes())
+		out = sliceutils.AppendLengthPrefixed(out, nonceBytes(r.R2[k]))
 	}
 	out = binary.LittleEndian.AppendUint64(out, uint64(len(r.Wj)))
 	for _, k := range slices.Sorted(maps.Keys(r.Wj)) {
 		out = binary.LittleEndian.AppendUint64(out, uint64(k))
-		out = sliceutils.AppendLengthPrefixed(out, r.Wj[k].Bytes())
+		out = sliceutils.AppendLengthPrefixed(out, plaintextBytes(r.Wj[k]))
 	}
 	out = binary.LittleEndian.AppendUint64(out, uint64(len(r.Rj)))
 	for _, k := range slices.Sorted(maps.Keys(r.Rj)) {
 		out = binary.LittleEndian.AppendUint64(out, uint64(k))
-		out = sliceutils.AppendLengthPrefixed(out, r.Rj[k].Bytes())
+		out = sliceutils.AppendLengthPrefixed(out, nonceBytes(r.Rj[k]))
 	}
 	out = binary.LittleEndian.AppendUint64(out, uint64(len(r.J)))
 	for _, k := range slices.Sorted(maps.Keys(r.J)) {
@@ -161,6 +168,44 @@ func (r *Response) Bytes() []byte {
 	}
 
 	return out
+}
+
+// plaintextBytes and nonceBytes tolerate a nil element (CBOR null), which Verify rejects.
+func plaintextBytes(pt *paillier.Plaintext) []byte {
+	if pt == nil {
+		return nil
+	}
+	return pt.Bytes()
+}
+
+func nonceBytes(n *paillier.Nonce) []byte {
+	if n == nil {
+		return nil
+	}
+	return n.Bytes()
+}
+
+// hasNilElements reports whether a decoded commitment or response carries a nil ciphertext,
+// plaintext or nonce.
+func hasNilElements(commitment *Commitment, response *Response) bool {
+	if slices.Contains(commitment.C1, nil) || slices.Contains(commitment.C2, nil) {
+		return true
+	}
+	for _, ws := range []map[uint]*paillier.Plaintext{response.W1, response.W2, response.Wj} {
+		for _, w := range ws {
+			if w == nil {
+				return true
+			}
+		}
+	}
+	for _, rs := range []map[uint]*paillier.Nonce{response.R1, response.R2, response.Rj} {
+		for _, r := range rs {
+			if r == nil {
+				return true
+			}
+		}
+	}
+	return false
 }
 
 // Protocol implements the Paillier range proof.
@@ -352,6 +397,9 @@ func (p *Protocol[EK]) Verify(statement *Statement, commitment *Commitment, chal
 	}
 	if len(commitment.C1) != int(p.t) || len(commitment.C2) != int(p.t) {
 		return proofs.ErrFailed.WithMessage("inconsistent input")
+	}
+	if hasNilElements(commitment, response) {
+		return proofs.ErrInvalidArgument.WithMessage("commitment or response contains a nil element")
 	}
 
 	l1 := len(response.W1)
